@@ -322,6 +322,14 @@ def _bin1(res, index):
         return
     strict = isinstance(cmps[0].ops[0], ast.Lt)
     two_pi = 2 * math.pi
+    # an explicit treatment of the end point elsewhere (`angles == 2 * np.pi`, `angles >= 2 * np.pi` ..): no verdict
+    for n in ast.walk(fn.node):
+        if isinstance(n, ast.Compare) and len(n.ops) == 1 and isinstance(n.ops[0], (ast.Eq, ast.GtE, ast.Gt)):
+            for side in (n.left, n.comparators[0]):
+                fv = _fold_float(side, env)
+                if fv is not None and abs(fv - two_pi) < 1e-3:
+                    res.not_in_fragment.append("BIN-1: the end point 2 pi is handled by a separate comparison")
+                    return
     if v > two_pi or (not strict and v == two_pi):
         res.ok("BIN-1", "ConvexPolygon.distance_to_surface:last-sector", sample={"upper_end": ast.unparse(st.value), "value": v, "compared_with": "<" if strict else "<="})
     else:
